@@ -500,7 +500,7 @@ func main() {
 			continue
 		}
 		rf := replayFile{Property: p.ID, Seed: r.Seed, Index: r.Index, Tape: r.Tape, Flavour: flavour, Invariant: r.Violation.Invariant, Sig: r.Violation.Sig, Detail: r.Violation.Detail, FullTape: len(r.Tape), Trace: r.Trace}
-		if r.MinTape != nil {
+		if r.Minimised {
 			rf.Tape, rf.Minimised, rf.Trace, rf.Detail = r.MinTape, true, r.MinTrace, r.MinDetail
 		}
 		name := fmt.Sprintf("%s-%d-%s.json", p.ID, r.Seed, sanitize(r.Violation.Invariant))
